@@ -86,4 +86,5 @@ func init() {
 	add("C05", "R05h: a boolean that a function of the block-application and verification closure returns after a loop is not a flag that every iteration overwrites with what it found.", "")
 	add("C10", "R10k: every comparison of a row-0 position with the leaf count inside the reviewed existence test (inForest) is strict.", "")
 	add("C06", "R06j = R10k.", "")
+	add("C09", "R09k: the keep flag the from-roots constructor stores with a root depends on its full argument, never a constant.", "")
 }
